@@ -176,6 +176,8 @@ def jobs(tier):
             add(op, 1, 2, 'M')
             add(op, 2, 1, 'Od2', compound=True)
             add(op, 1, 2, 'Od2', compound=True)
+            add(op, 2, 1, 'Od2', compound=True, spelling='keyrev', differential=True)
+            add(op, 1, 2, 'Od2', compound=True, spelling='keyrev', differential=True)
             add(op, 2, 1, 'O', ragged=True, miss='tag')
             add(op, 1, 2, 'O', ragged=True)
             add(op, 2, 2, 'O', spelling='lrkey', prefix=True, miss='tag')
@@ -188,6 +190,7 @@ def jobs(tier):
             add(op, 3, 1, 'M')
             add(op, 1, 3, 'M')
             add(op, 2, 2, 'Od2', compound=True)
+            add(op, 2, 2, 'Od2', compound=True, spelling='keyrev', differential=True)
             add(op, 2, 2, 'O', ragged=True, miss='tag')
             add(op, 2, 2, 'O', ragged=True)
             add(op, 3, 2, 'O', spelling='lrkey', prefix=True, miss='tag')
